@@ -61,13 +61,15 @@ impl FromStr for Database {
                         .1,
                 );
             } else if line.starts_with('[') && line.ends_with(']') {
-                cur_mod = Some(
-                    parse_module(line)
-                        .map_err(|err| {
-                            DatabaseError::Parse(format!("fail to parse `module`: {line}, {err}"))
-                        })?
-                        .1,
-                );
+                let (rest, module) = parse_module(line).map_err(|err| {
+                    DatabaseError::Parse(format!("fail to parse `module`: {line}, {err}"))
+                })?;
+                if !rest.is_empty() {
+                    return Err(DatabaseError::Parse(format!(
+                        "fail to parse `module`: {line}, unexpected text after the section header: {rest}"
+                    )));
+                }
+                cur_mod = Some(module);
             } else if let Some((module, direction)) = cur_mod.as_ref() {
                 let (_, (name, value)) = parse_named_value(line).map_err(|err| {
                     DatabaseError::Parse(format!("fail to parse named value: {line}, {err}"))
